@@ -14,6 +14,12 @@
 use minicbor::{Encode, Decode, CborLen, Encoder, Decoder};
 use minicbor::encode::write::Cursor;
 
+/// assertion with a static message (in a no_std crate `chk!(c, "..")` reaches Kani as a formatted message and the text is lost)
+#[cfg(kani)]
+macro_rules! chk { ($c:expr, $m:literal) => { kani::assert($c, $m) } }
+#[cfg(not(kani))]
+macro_rules! chk { ($c:expr, $m:literal) => { assert!($c, $m) } }
+
 // =====================================================================================================================
 // Reference encoder (plain Rust; every loop has a bound that is a constant of the schema)
 // =====================================================================================================================
@@ -39,15 +45,20 @@ pub const NOTAG: u64 = u64::MAX;
 
 /// One field of a struct / variant: index, tag (or NOTAG), presence (false = absent optional value), leaf.
 #[derive(Clone, Copy)]
-pub struct F { pub idx: u32, pub tag: u64, pub present: bool, pub kind: u8, pub val: u64 }
+pub struct F { pub idx: u32, pub tag: u64, pub present: bool, pub kind: u8, pub val: u64, pub w: u8 }
+/// `w`: AUTO, or the width class (0..=4, see `Fr::wide`) the harness CLAIMS the preferred head of `val` has.  A claim
+/// keeps the layout of the output concrete for CBMC (decode side); it is checked (`assert`) against the computed
+/// class, so a wrong claim fails the harness instead of bending the reference.
+pub const AUTO: u8 = 0xff;
 
-pub fn fu(idx: u32, v: u64) -> F { F { idx, tag: NOTAG, present: true, kind: K_U, val: v } }
-pub fn fi(idx: u32, v: i64) -> F { F { idx, tag: NOTAG, present: true, kind: K_I, val: v as u64 } }
-pub fn fb(idx: u32, v: bool) -> F { F { idx, tag: NOTAG, present: true, kind: K_BOOL, val: v as u64 } }
-pub fn fbytes4(idx: u32, v: [u8; 4]) -> F { F { idx, tag: NOTAG, present: true, kind: K_BYTES4, val: u32::from_be_bytes(v) as u64 } }
-pub fn fnested(idx: u32) -> F { F { idx, tag: NOTAG, present: true, kind: K_NESTED, val: 0 } }
-pub fn absent(idx: u32) -> F { F { idx, tag: NOTAG, present: false, kind: K_U, val: 0 } }
+pub fn fu(idx: u32, v: u64) -> F { F { idx, tag: NOTAG, present: true, kind: K_U, val: v, w: AUTO } }
+pub fn fi(idx: u32, v: i64) -> F { F { idx, tag: NOTAG, present: true, kind: K_I, val: v as u64, w: AUTO } }
+pub fn fb(idx: u32, v: bool) -> F { F { idx, tag: NOTAG, present: true, kind: K_BOOL, val: v as u64, w: AUTO } }
+pub fn fbytes4(idx: u32, v: [u8; 4]) -> F { F { idx, tag: NOTAG, present: true, kind: K_BYTES4, val: u32::from_be_bytes(v) as u64, w: AUTO } }
+pub fn fnested(idx: u32) -> F { F { idx, tag: NOTAG, present: true, kind: K_NESTED, val: 0, w: AUTO } }
+pub fn absent(idx: u32) -> F { F { idx, tag: NOTAG, present: false, kind: K_U, val: 0, w: AUTO } }
 pub fn tagged(t: u64, f: F) -> F { F { tag: t, ..f } }
+pub fn cls(w: u8, f: F) -> F { F { w, ..f } }
 /// optional fields
 pub fn ou<T: Into<u64> + Copy>(idx: u32, x: &Option<T>) -> F { match x { Some(v) => fu(idx, (*v).into()), None => absent(idx) } }
 pub fn oi<T: Into<i64> + Copy>(idx: u32, x: &Option<T>) -> F { match x { Some(v) => fi(idx, (*v).into()), None => absent(idx) } }
@@ -76,8 +87,11 @@ impl<const N: usize> Out<N> {
 
     /// RFC 8949 section 3: initial byte = major << 5 | info, argument big-endian in the shortest width that is
     /// at least `wide`.
-    pub fn head(&mut self, major: u8, arg: u64, wide: u8) {
+    pub fn head(&mut self, major: u8, arg: u64, wide: u8) { self.head_c(major, arg, wide, AUTO) }
+
+    pub fn head_c(&mut self, major: u8, arg: u64, wide: u8, claim: u8) {
         let pref: u8 = if arg < 24 { 0 } else if arg <= 0xff { 1 } else if arg <= 0xffff { 2 } else if arg <= 0xffff_ffff { 3 } else { 4 };
+        let pref = if claim != AUTO { chk!(claim == pref, "reference encoder: claimed width class is the preferred one"); claim } else { pref };
         let c = if wide > pref { wide } else { pref };
         let m = major << 5;
         match c {
@@ -95,10 +109,10 @@ impl<const N: usize> Out<N> {
 
     pub fn item(&mut self, f: &F, nested: &Out<RAW>, wide: u8) {
         if f.kind == K_U {
-            self.head(0, f.val, wide)
+            self.head_c(0, f.val, wide, f.w)
         } else if f.kind == K_I {
             let v = f.val as i64;
-            if v >= 0 { self.head(0, v as u64, wide) } else { self.head(1, (-1 - v) as u64, wide) }
+            if v >= 0 { self.head_c(0, v as u64, wide, f.w) } else { self.head_c(1, (-1 - v) as u64, wide, f.w) }
         } else if f.kind == K_BOOL {
             self.put(if f.val != 0 { 0xf5 } else { 0xf4 })
         } else if f.kind == K_BYTES4 {
@@ -212,14 +226,14 @@ fn end0(buf: &[u8], p: usize) -> Option<usize> {
     match major {
         0 | 1 | 7 => Some(p + hlen),
         2 | 3 => {
-            assert!(info != 31, "skip stub: indefinite string outside the stub's domain");
+            chk!(info != 31, "skip stub: indefinite string outside the stub's domain");
             if arg > (buf.len() - p - hlen) as u64 { None } else { Some(p + hlen + arg as usize) }
         }
         4 | 5 => {
-            assert!(info != 31 && arg == 0, "skip stub: nesting deeper than the stub's domain");
+            chk!(info != 31 && arg == 0, "skip stub: nesting deeper than the stub's domain");
             Some(p + hlen)
         }
-        _ => { assert!(false, "skip stub: nesting deeper than the stub's domain"); None }
+        _ => { chk!(false, "skip stub: nesting deeper than the stub's domain"); None }
     }
 }
 
@@ -228,9 +242,9 @@ fn end1(buf: &[u8], p: usize) -> Option<usize> {
     let (major, info, arg, hlen) = head_at(buf, p)?;
     match major {
         4 | 5 => {
-            assert!(info != 31, "skip stub: indefinite container outside the stub's domain");
+            chk!(info != 31, "skip stub: indefinite container outside the stub's domain");
             let n = if major == 4 { arg } else { 2 * arg };
-            assert!(n <= 4, "skip stub: container longer than the stub's domain");
+            chk!(n <= 4, "skip stub: container longer than the stub's domain");
             let mut q = p + hlen;
             let mut i = 0;
             while i < 4 { if i < n { q = end0(buf, q)? } i += 1 }
@@ -246,7 +260,7 @@ fn end2(buf: &[u8], p: usize) -> Option<usize> {
     let (major, info, arg, hlen) = head_at(buf, p)?;
     match major {
         4 => {
-            assert!(info != 31 && arg <= 2, "skip stub: container outside the stub's domain");
+            chk!(info != 31 && arg <= 2, "skip stub: container outside the stub's domain");
             let mut q = p + hlen;
             if arg >= 1 { q = end1(buf, q)? }
             if arg >= 2 { q = end1(buf, q)? }
@@ -277,9 +291,22 @@ skip_stub!(skip2, end2);
 // Harness templates
 // =====================================================================================================================
 
+/// width-class claims per integer leaf, in field order (encode side: all AUTO)
+pub type Hints = [u8; 8];
+pub const NOH: Hints = [AUTO; 8];
+pub const fn h1(a: u8) -> Hints { [a, AUTO, AUTO, AUTO, AUTO, AUTO, AUTO, AUTO] }
+pub const fn h2(a: u8, b: u8) -> Hints { [a, b, AUTO, AUTO, AUTO, AUTO, AUTO, AUTO] }
+pub const fn h3(a: u8, b: u8, c: u8) -> Hints { [a, b, c, AUTO, AUTO, AUTO, AUTO, AUTO] }
+
+/// symbolic integers restricted to one width class of their preferred head (class 0: argument < 24, 1: < 2^8, 2: < 2^16)
+#[cfg(kani)] pub fn u8c(c: u8) -> u8 { let x: u8 = kani::any(); kani::assume(if c == 0 { x < 24 } else { x >= 24 }); x }
+#[cfg(kani)] pub fn u16c(c: u8) -> u16 { let x: u16 = kani::any(); kani::assume(if c == 0 { x < 24 } else if c == 1 { x >= 24 && x <= 0xff } else { x > 0xff }); x }
+#[cfg(kani)] pub fn i8c(c: u8) -> i8 { let x: i8 = kani::any(); kani::assume(if c == 0 { x >= -24 && x < 24 } else { x < -24 || x >= 24 }); x }
+
 /// C08 + C07: derived `encode` of a fully symbolic value (values AND presence) == reference, `cbor_len` == bytes written.
+/// `$assume`: class of values of the main harness (true unless a known defect is cut out); `$lenok`: class on which C07 is asserted.
 macro_rules! enc_harness {
-    ($name:ident, $t:ty, $cap:expr, $reff:path, |$v:ident| $assume:expr, $cover:expr) => {
+    ($name:ident, $t:ty, $cap:expr, $reff:path, |$v:ident| $assume:expr, $lenok:expr, $cover:expr) => {
         #[cfg(kani)]
         #[kani::proof]
         fn $name() {
@@ -288,85 +315,424 @@ macro_rules! enc_harness {
             let init: [u8; $cap] = kani::any();
             let mut e = Encoder::new(Cursor::new(init));
             let ok = $v.encode(&mut e, &mut ()).is_ok();
-            assert!(ok, "encoding into a sufficient buffer succeeds");
+            chk!(ok, "encoding into a sufficient buffer succeeds");
             let c = e.into_writer();
             let n = c.position();
             let got = c.into_inner();
-            let mut want = Out::<$cap>::new();
-            $reff(&mut want, &$v, PREF);
-            assert!(n == want.n, "C08: number of bytes");
+            let mut want = Out::<{ $cap + 8 }>::new();
+            $reff(&mut want, &$v, &NOH, PREF);
+            chk!(n == want.n, "C08: number of bytes");
             let mut i = 0;
-            while i < $cap { if i < n { assert!(got[i] == want.b[i], "C08: bytes equal the documented format") } i += 1 }
-            assert!($v.cbor_len(&mut ()) == n, "C07: cbor_len == bytes written");
+            while i < $cap { if i < n { chk!(got[i] == want.b[i], "C08: bytes equal the documented format") } i += 1 }
+            if $lenok { chk!($v.cbor_len(&mut ()) == n, "C07: cbor_len == bytes written") }
             kani::cover!($cover);
         }
     }
 }
 
 /// C09 / C10: reader type `$rt` decodes the reference encoding (framing `$fr`) of the writer value `$mk` of type `$wt`
-/// (presence concrete, leaves symbolic) to `$expect`, consuming exactly the input.  `$skip` = which rendering of the
-/// contract of `Decoder::skip` is used (skip0: leaves, skip1: containers of leaves, skip2: `[n, container of leaves]`).
+/// (presence and width classes `$h` concrete, leaves symbolic) to `$expect`, consuming exactly the input.
+/// `$skip` = which rendering of the contract of `Decoder::skip` is used (skip0: leaves, skip1: containers of leaves,
+/// skip2: `[n, container of leaves]`).
 macro_rules! dec_harness {
-    ($name:ident, $skip:ident, $wt:ty => $rt:ty, $cap:expr, $reff:path, $fr:expr, $mk:expr, |$v:ident| $expect:expr) => {
+    ($name:ident, $skip:ident, $wt:ty => $rt:ty, $cap:expr, $reff:path, $fr:expr, $h:expr, |$hh:ident| $mk:expr, |$v:ident| $expect:expr) => {
         #[cfg(kani)]
         #[kani::proof]
         #[kani::stub(minicbor::decode::Decoder::skip, $skip)]
         #[kani::unwind(8)]
         fn $name() {
+            let $hh: Hints = $h;
             let $v: $wt = $mk;
             let mut inp = Out::<$cap>::new();
-            $reff(&mut inp, &$v, $fr);
+            $reff(&mut inp, &$v, &$hh, $fr);
             let mut d = Decoder::new(&inp.b[.. inp.n]);
             let r: Result<$rt, minicbor::decode::Error> = Decode::decode(&mut d, &mut ());
             match r {
                 Ok(w) => {
                     let want: $rt = $expect;
-                    assert!(w == want, "decoded value");
-                    assert!(d.position() == inp.n, "exact consumption");
+                    chk!(w == want, "decoded value");
+                    chk!(d.position() == inp.n, "exact consumption");
                 }
-                Err(_) => assert!(false, "decoding the reference encoding succeeds"),
+                Err(_) => chk!(false, "decoding the reference encoding succeeds"),
             }
             kani::cover!(inp.n >= 1);
         }
     };
-    ($name:ident, $t:ty, $cap:expr, $reff:path, $fr:expr, $mk:expr) => {
-        dec_harness!($name, skip0, $t => $t, $cap, $reff, $fr, $mk, |v| v);
+    ($name:ident, $t:ty, $reff:path, $fr:expr, $h:expr, |$hh:ident| $mk:expr) => {
+        dec_harness!($name, skip0, $t => $t, 24, $reff, $fr, $h, |$hh| $mk, |v| v);
     };
 }
 
-// =====================================================================================================================
-// The family
-// =====================================================================================================================
-
-// ---- A: array encoding, gap at index 1, optional in the middle -------------------------------------------------------
-#[derive(Encode, Decode, CborLen, PartialEq, Clone, Copy)]
-#[cfg_attr(kani, derive(kani::Arbitrary))]
-pub struct A { #[n(0)] a: u8, #[n(2)] b: Option<u16>, #[n(3)] c: bool }
-
-fn ref_a<const N: usize>(o: &mut Out<N>, v: &A, fr: Fr) {
-    o.structure(false, NOTAG, &[fu(0, v.a as u64), ou(2, &v.b), fb(3, v.c)], fr)
+/// C09 errors: the derived decoder of `$rt` rejects `$bytes` with an error satisfying `$class`.
+macro_rules! err_harness {
+    ($name:ident, $rt:ty, $len:expr, $bytes:expr, |$e:ident| $class:expr) => {
+        #[cfg(kani)]
+        #[kani::proof]
+        #[kani::stub(minicbor::decode::Decoder::skip, skip0)]
+        #[kani::unwind(8)]
+        fn $name() {
+            let inp: [u8; $len] = $bytes;
+            let mut d = Decoder::new(&inp[..]);
+            let r: Result<$rt, minicbor::decode::Error> = Decode::decode(&mut d, &mut ());
+            match r {
+                Ok(_) => chk!(false, "must be rejected"),
+                Err($e) => chk!($class, "error class"),
+            }
+            kani::cover!(true);
+        }
+    }
 }
+
+// =====================================================================================================================
+// The family.  Definitions are listed verbatim in the evidence; leaves are fixed-size (u8 / u16 / i8 / bool / [u8; 4]),
+// so `kani::any()` covers every value.  Decode-side definitions avoid `Option<bool>`: its niche layout makes the
+// presence bit share a byte with the symbolic payload, and the structure of the input is then not concrete for CBMC.
+// =====================================================================================================================
+
+macro_rules! family { ($($i:item)*) => { $( #[derive(Encode, Decode, CborLen, PartialEq, Clone, Copy)] #[cfg_attr(kani, derive(kani::Arbitrary))] $i )* } }
+
+family! {
+    // array encoding, gap at index 1, optional field in the middle
+    pub struct A { #[n(0)] a: u8, #[n(2)] b: Option<u16>, #[n(3)] c: bool }
+    // array encoding, dense
+    pub struct AD { #[n(0)] a: u8, #[n(1)] b: i8, #[n(2)] c: bool }
+    // the same schema as AD with permuted declaration order, other names and `b` instead of `n`
+    pub struct AP { #[b(2)] z: bool, #[n(0)] x: u8, #[cbor(n(1))] y: i8 }
+    // array encoding, optional fields in first and last position
+    pub struct O1 { #[n(0)] a: Option<u8>, #[n(1)] b: u8, #[n(2)] c: Option<bool> }
+    // map encoding with index gaps, two optional fields
+    #[cbor(map)] pub struct M { #[n(0)] a: u8, #[n(2)] b: Option<u16>, #[n(5)] c: Option<bool> }
+    // map encoding, decode-side twin of M without Option<bool>, permuted declaration order
+    #[cbor(map)] pub struct MP { #[n(5)] c: Option<i8>, #[n(0)] a: u8, #[n(2)] b: Option<u16> }
+    // tuple struct with a gap
+    pub struct T(#[n(0)] u8, #[n(1)] Option<u8>, #[n(3)] bool);
+    // unit struct
+    pub struct U;
+    // tag at struct level and at field level (tag 300 has a 3-byte head)
+    #[cbor(tag(7))] pub struct TG { #[cbor(n(0), tag(300))] a: u8, #[n(1)] b: bool }
+    // the same in map encoding
+    #[cbor(map, tag(7))] pub struct TGM { #[cbor(n(1), tag(300))] a: Option<u8>, #[n(2)] b: bool }
+    // transparent newtype
+    #[cbor(transparent)] pub struct TR(#[n(0)] u16);
+    // skipped field
+    pub struct SK { #[n(0)] a: u8, #[cbor(skip)] s: u8, #[n(1)] b: bool }
+    // enum: unit / tuple / struct variants, array encoding (default), variant-level tag
+    pub enum E { #[n(0)] V0, #[n(1)] V1(#[n(0)] u8, #[n(1)] Option<u8>), #[n(3)] V3 { #[n(0)] a: bool, #[n(2)] b: Option<u16> }, #[n(4)] #[cbor(tag(9))] V4(#[n(0)] bool) }
+    // enum: map encoding at enum level, overridden per variant; enum-level tag
+    #[cbor(map, tag(6))] pub enum EM { #[n(0)] V0, #[n(1)] V1 { #[n(0)] a: u8, #[n(3)] b: bool }, #[n(2)] #[cbor(array)] V2(#[n(0)] u8, #[n(1)] bool) }
+    // enum with an optional field in a map-encoded variant (D4)
+    #[cbor(map)] pub enum EO { #[n(0)] V0 { #[n(0)] a: u8, #[n(1)] b: Option<u8> } }
+    // index_only enum (index 30 has a 2-byte head)
+    #[cbor(index_only)] pub enum IO { #[n(0)] I0, #[n(1)] I1, #[n(30)] I30 }
+    // byte string codec on a fixed-size array
+    pub struct BY { #[n(0)] a: u8, #[cbor(n(1), with = "minicbor::bytes")] b: [u8; 4] }
+    // tagged optional field in an array, below the highest index (D5)
+    pub struct TO { #[cbor(n(0), tag(5))] a: Option<u8>, #[n(1)] b: bool }
+}
+
+fn ref_a<const N: usize>(o: &mut Out<N>, v: &A, h: &Hints, fr: Fr) {
+    o.structure(false, NOTAG, &[cls(h[0], fu(0, v.a as u64)), cls(h[1], ou(2, &v.b)), fb(3, v.c)], fr)
+}
+fn ref_ad<const N: usize>(o: &mut Out<N>, v: &AD, h: &Hints, fr: Fr) {
+    o.structure(false, NOTAG, &[cls(h[0], fu(0, v.a as u64)), cls(h[1], fi(1, v.b as i64)), fb(2, v.c)], fr)
+}
+fn ref_ap<const N: usize>(o: &mut Out<N>, v: &AP, h: &Hints, fr: Fr) {
+    ref_ad(o, &AD { a: v.x, b: v.y, c: v.z }, h, fr)
+}
+fn ref_o1<const N: usize>(o: &mut Out<N>, v: &O1, h: &Hints, fr: Fr) {
+    o.structure(false, NOTAG, &[cls(h[0], ou(0, &v.a)), cls(h[1], fu(1, v.b as u64)), ob(2, &v.c)], fr)
+}
+fn ref_m<const N: usize>(o: &mut Out<N>, v: &M, h: &Hints, fr: Fr) {
+    o.structure(true, NOTAG, &[cls(h[0], fu(0, v.a as u64)), cls(h[1], ou(2, &v.b)), ob(5, &v.c)], fr)
+}
+fn ref_mp<const N: usize>(o: &mut Out<N>, v: &MP, h: &Hints, fr: Fr) {
+    o.structure(true, NOTAG, &[cls(h[0], fu(0, v.a as u64)), cls(h[1], ou(2, &v.b)), cls(h[2], oi(5, &v.c))], fr)
+}
+fn ref_t<const N: usize>(o: &mut Out<N>, v: &T, h: &Hints, fr: Fr) {
+    o.structure(false, NOTAG, &[cls(h[0], fu(0, v.0 as u64)), cls(h[1], ou(1, &v.1)), fb(3, v.2)], fr)
+}
+fn ref_u<const N: usize>(o: &mut Out<N>, _v: &U, _h: &Hints, fr: Fr) {
+    o.structure(false, NOTAG, &[], fr)
+}
+fn ref_tg<const N: usize>(o: &mut Out<N>, v: &TG, h: &Hints, fr: Fr) {
+    o.structure(false, 7, &[tagged(300, cls(h[0], fu(0, v.a as u64))), fb(1, v.b)], fr)
+}
+fn ref_tgm<const N: usize>(o: &mut Out<N>, v: &TGM, h: &Hints, fr: Fr) {
+    o.structure(true, 7, &[tagged(300, cls(h[0], ou(1, &v.a))), fb(2, v.b)], fr)
+}
+fn ref_tr<const N: usize>(o: &mut Out<N>, v: &TR, h: &Hints, fr: Fr) {
+    o.head_c(0, v.0 as u64, fr.wide, h[0])
+}
+fn ref_sk<const N: usize>(o: &mut Out<N>, v: &SK, h: &Hints, fr: Fr) {
+    o.structure(false, NOTAG, &[cls(h[0], fu(0, v.a as u64)), fb(1, v.b)], fr)
+}
+fn ref_e<const N: usize>(o: &mut Out<N>, v: &E, h: &Hints, fr: Fr) {
+    match v {
+        E::V0 => { o.enum_prefix(NOTAG, false, 0, fr); o.structure(false, NOTAG, &[], fr) }
+        E::V1(x, y) => { o.enum_prefix(NOTAG, false, 1, fr); o.structure(false, NOTAG, &[cls(h[0], fu(0, *x as u64)), cls(h[1], ou(1, y))], fr) }
+        E::V3 { a, b } => { o.enum_prefix(NOTAG, false, 3, fr); o.structure(false, NOTAG, &[fb(0, *a), cls(h[0], ou(2, b))], fr) }
+        E::V4(x) => { o.enum_prefix(NOTAG, false, 4, fr); o.structure(false, 9, &[fb(0, *x)], fr) }
+    }
+}
+fn ref_em<const N: usize>(o: &mut Out<N>, v: &EM, h: &Hints, fr: Fr) {
+    match v {
+        EM::V0 => { o.enum_prefix(6, false, 0, fr); o.structure(true, NOTAG, &[], fr) }
+        EM::V1 { a, b } => { o.enum_prefix(6, false, 1, fr); o.structure(true, NOTAG, &[cls(h[0], fu(0, *a as u64)), fb(3, *b)], fr) }
+        EM::V2(x, y) => { o.enum_prefix(6, false, 2, fr); o.structure(false, NOTAG, &[cls(h[0], fu(0, *x as u64)), fb(1, *y)], fr) }
+    }
+}
+fn ref_eo<const N: usize>(o: &mut Out<N>, v: &EO, h: &Hints, fr: Fr) {
+    match v {
+        EO::V0 { a, b } => { o.enum_prefix(NOTAG, false, 0, fr); o.structure(true, NOTAG, &[cls(h[0], fu(0, *a as u64)), cls(h[1], ou(1, b))], fr) }
+    }
+}
+fn ref_io<const N: usize>(o: &mut Out<N>, v: &IO, _h: &Hints, fr: Fr) {
+    o.enum_prefix(NOTAG, true, match v { IO::I0 => 0, IO::I1 => 1, IO::I30 => 30 }, fr)
+}
+fn ref_by<const N: usize>(o: &mut Out<N>, v: &BY, h: &Hints, fr: Fr) {
+    o.structure(false, NOTAG, &[cls(h[0], fu(0, v.a as u64)), fbytes4(1, v.b)], fr)
+}
+fn ref_to<const N: usize>(o: &mut Out<N>, v: &TO, h: &Hints, fr: Fr) {
+    o.structure(false, NOTAG, &[tagged(5, cls(h[0], ou(0, &v.a))), fb(1, v.b)], fr)
+}
+
+// ---------------------------------------------------------------------------------------------------------------------
+// C08 + C07, encode side: one harness per definition, all values, all presence combinations
+// ---------------------------------------------------------------------------------------------------------------------
 
 // @harness name=enc_a props=C08,C07 kind=complete
-enc_harness!(enc_a, A, 16, ref_a, |v| true, v.b.is_some() && v.a >= 24);
-// @harness name=dec_a_m0 props=C09 kind=complete
-dec_harness!(dec_a_m0, A, 16, ref_a, PREF, A { a: kani::any(), b: None, c: kani::any() });
-// @harness name=dec_a_m1 props=C09 kind=complete
-dec_harness!(dec_a_m1, A, 16, ref_a, PREF, A { a: kani::any(), b: Some(kani::any()), c: kani::any() });
-dec_harness!(x_a_wide2, A, 16, ref_a, WIDE2, A { a: kani::any(), b: Some(kani::any()), c: kani::any() });
-dec_harness!(x_a_indef, A, 16, ref_a, INDEF, A { a: kani::any(), b: None, c: kani::any() });
-
-// ---- M: map encoding with gaps, two optional fields ------------------------------------------------------------------
-#[derive(Encode, Decode, CborLen, PartialEq, Clone, Copy)]
-#[cfg_attr(kani, derive(kani::Arbitrary))]
-#[cbor(map)]
-pub struct M { #[n(0)] a: u8, #[n(2)] b: Option<u16>, #[n(5)] c: Option<bool> }
-
-fn ref_m<const N: usize>(o: &mut Out<N>, v: &M, fr: Fr) {
-    o.structure(true, NOTAG, &[fu(0, v.a as u64), ou(2, &v.b), ob(5, &v.c)], fr)
-}
-
+enc_harness!(enc_a, A, 16, ref_a, |v| true, true, v.b.is_some() && v.a >= 24);
+// @harness name=enc_ad props=C08,C07 kind=complete
+enc_harness!(enc_ad, AD, 16, ref_ad, |v| true, true, v.b < -24);
+// @harness name=enc_ap props=C08,C07 kind=complete note="declaration order, names and n/b do not influence the bytes"
+enc_harness!(enc_ap, AP, 16, ref_ap, |v| true, true, v.y < -24);
+// @harness name=enc_o1 props=C08,C07 kind=complete
+enc_harness!(enc_o1, O1, 16, ref_o1, |v| true, true, v.a.is_none() && v.c.is_none());
 // @harness name=enc_m props=C08,C07 kind=complete
-enc_harness!(enc_m, M, 16, ref_m, |v| true, v.b.is_some() && v.c.is_none());
-// @harness name=dec_m_m3 props=C09 kind=complete
-dec_harness!(dec_m_m3, M, 16, ref_m, PREF, M { a: kani::any(), b: Some(kani::any()), c: Some(kani::any()) });
+enc_harness!(enc_m, M, 16, ref_m, |v| true, true, v.b.is_some() && v.c.is_none());
+// @harness name=enc_mp props=C08,C07 kind=complete
+enc_harness!(enc_mp, MP, 16, ref_mp, |v| true, true, v.b.is_none() && v.c.is_some());
+// @harness name=enc_t props=C08,C07 kind=complete
+enc_harness!(enc_t, T, 16, ref_t, |v| true, true, v.1.is_none());
+// @harness name=enc_u props=C08,C07 kind=complete
+enc_harness!(enc_u, U, 8, ref_u, |v| true, true, true);
+// @harness name=enc_tg props=C08,C07 kind=complete
+enc_harness!(enc_tg, TG, 16, ref_tg, |v| true, true, v.a >= 24);
+// @harness name=enc_tgm props=C08,C07 kind=complete
+enc_harness!(enc_tgm, TGM, 16, ref_tgm, |v| true, true, v.a.is_none());
+// @harness name=enc_tr props=C08,C07 kind=complete
+enc_harness!(enc_tr, TR, 8, ref_tr, |v| true, true, v.0 > 255);
+// @harness name=enc_sk props=C08,C07 kind=complete
+enc_harness!(enc_sk, SK, 16, ref_sk, |v| true, true, v.s != 0);
+// @harness name=enc_e props=C08,C07 kind=complete note="excludes the class of D4 (absent optional field of a variant)"
+enc_harness!(enc_e, E, 16, ref_e, |v| !matches!(v, E::V3 { b: None, .. } | E::V1(_, None)), true, matches!(v, E::V3 { .. }));
+// @harness name=kf_d4_enum_array_absent props=C08 kind=complete note="D4: E::V1(x, None) is written as 82 01 82 x f6 (trailing null) instead of 82 01 81 x"
+enc_harness!(kf_d4_enum_array_absent, E, 16, ref_e, |v| matches!(v, E::V3 { b: None, .. } | E::V1(_, None)), true, true);
+// @harness name=enc_em props=C08,C07 kind=complete
+enc_harness!(enc_em, EM, 16, ref_em, |v| true, true, matches!(v, EM::V2(..)));
+// @harness name=enc_eo props=C08,C07 kind=complete note="excludes the class of D4 (absent optional field of a map-encoded variant)"
+enc_harness!(enc_eo, EO, 16, ref_eo, |v| !matches!(v, EO::V0 { b: None, .. }), true, true);
+// @harness name=kf_d4_enum_map_absent props=C08 kind=complete note="D4: EO::V0 { a, b: None } is written with an explicit `1: null` entry"
+enc_harness!(kf_d4_enum_map_absent, EO, 16, ref_eo, |v| matches!(v, EO::V0 { b: None, .. }), true, true);
+// @harness name=enc_io props=C08,C07 kind=complete
+enc_harness!(enc_io, IO, 8, ref_io, |v| true, true, matches!(v, IO::I30));
+// @harness name=enc_by props=C08,C07 kind=complete
+enc_harness!(enc_by, BY, 16, ref_by, |v| true, true, v.a >= 24);
+// @harness name=enc_to props=C08,C07 kind=complete note="C07 asserted outside the class of D5 (a == None)"
+enc_harness!(enc_to, TO, 16, ref_to, |v| true, v.a.is_some(), v.a.is_none());
+// @harness name=kf_d5_tagged_nil_len props=C07 kind=complete note="D5: TO { a: None, b }: 4 bytes written (82 c5 f6 f4/f5), cbor_len reports 3"
+enc_harness!(kf_d5_tagged_nil_len, TO, 16, ref_to, |v| v.a.is_none(), true, true);
+
+// ---- 24-field map struct with optional fields (D5: derived cbor_len sizes the map header from the declared field count) ----
+family! {
+    #[cbor(map)] pub struct M24 { #[n(0)] f0: bool, #[n(1)] f1: bool, #[n(2)] f2: bool, #[n(3)] f3: bool, #[n(4)] f4: bool, #[n(5)] f5: bool, #[n(6)] f6: bool, #[n(7)] f7: bool, #[n(8)] f8: bool, #[n(9)] f9: bool, #[n(10)] f10: bool, #[n(11)] f11: bool, #[n(12)] f12: bool, #[n(13)] f13: bool, #[n(14)] f14: bool, #[n(15)] f15: bool, #[n(16)] f16: bool, #[n(17)] f17: bool, #[n(18)] f18: bool, #[n(19)] f19: bool, #[n(20)] f20: bool, #[n(21)] f21: bool, #[n(22)] f22: Option<bool>, #[n(24)] f24: Option<bool> }
+}
+fn ref_m24<const N: usize>(o: &mut Out<N>, v: &M24, _h: &Hints, fr: Fr) {
+    o.structure(true, NOTAG, &[fb(0, v.f0), fb(1, v.f1), fb(2, v.f2), fb(3, v.f3), fb(4, v.f4), fb(5, v.f5), fb(6, v.f6), fb(7, v.f7), fb(8, v.f8), fb(9, v.f9), fb(10, v.f10), fb(11, v.f11), fb(12, v.f12), fb(13, v.f13), fb(14, v.f14), fb(15, v.f15), fb(16, v.f16), fb(17, v.f17), fb(18, v.f18), fb(19, v.f19), fb(20, v.f20), fb(21, v.f21), ob(22, &v.f22), ob(24, &v.f24)], fr)
+}
+// @harness name=enc_m24 props=C08,C07 kind=complete note="C07 asserted outside the class of D5 (some optional field absent, < 24 entries written)"
+enc_harness!(enc_m24, M24, 56, ref_m24, |v| true, v.f22.is_some() && v.f24.is_some(), v.f22.is_none());
+// @harness name=kf_d5_m24_len props=C07 kind=complete note="D5: M24 with f22 or f24 absent: header a0+n (1 byte) is written, cbor_len counts the 2-byte header of map(24)"
+enc_harness!(kf_d5_m24_len, M24, 56, ref_m24, |v| v.f22.is_none() || v.f24.is_none(), true, true);
+
+// ---------------------------------------------------------------------------------------------------------------------
+// C09, decode side: decode(ref_encode(v)) == v, exact consumption.  One harness per (presence mask, width classes);
+// the union of the harnesses of a definition covers every value of the type.
+// ---------------------------------------------------------------------------------------------------------------------
+
+// @harness name=dec_a_n0 props=C09 kind=complete tier=thorough
+dec_harness!(dec_a_n0, A, ref_a, PREF, h2(0, AUTO), |h| A { a: u8c(h[0]), b: None, c: kani::any() });
+// @harness name=dec_a_00 props=C09 kind=complete
+dec_harness!(dec_a_00, A, ref_a, PREF, h2(0, 0), |h| A { a: u8c(h[0]), b: Some(u16c(h[1])), c: kani::any() });
+// @harness name=dec_a_01 props=C09 kind=complete tier=thorough
+dec_harness!(dec_a_01, A, ref_a, PREF, h2(0, 1), |h| A { a: u8c(h[0]), b: Some(u16c(h[1])), c: kani::any() });
+// @harness name=dec_a_02 props=C09 kind=complete tier=thorough
+dec_harness!(dec_a_02, A, ref_a, PREF, h2(0, 2), |h| A { a: u8c(h[0]), b: Some(u16c(h[1])), c: kani::any() });
+// @harness name=dec_a_n1 props=C09 kind=complete
+dec_harness!(dec_a_n1, A, ref_a, PREF, h2(1, AUTO), |h| A { a: u8c(h[0]), b: None, c: kani::any() });
+// @harness name=dec_a_10 props=C09 kind=complete tier=thorough
+dec_harness!(dec_a_10, A, ref_a, PREF, h2(1, 0), |h| A { a: u8c(h[0]), b: Some(u16c(h[1])), c: kani::any() });
+// @harness name=dec_a_11 props=C09 kind=complete tier=thorough
+dec_harness!(dec_a_11, A, ref_a, PREF, h2(1, 1), |h| A { a: u8c(h[0]), b: Some(u16c(h[1])), c: kani::any() });
+// @harness name=dec_a_12 props=C09 kind=complete
+dec_harness!(dec_a_12, A, ref_a, PREF, h2(1, 2), |h| A { a: u8c(h[0]), b: Some(u16c(h[1])), c: kani::any() });
+// @harness name=dec_ad_00 props=C09 kind=complete tier=thorough
+dec_harness!(dec_ad_00, AD, ref_ad, PREF, h2(0, 0), |h| AD { a: u8c(h[0]), b: i8c(h[1]), c: kani::any() });
+// @harness name=dec_ap_00 props=C09 kind=complete tier=thorough
+dec_harness!(dec_ap_00, AP, ref_ap, PREF, h2(0, 0), |h| AP { x: u8c(h[0]), y: i8c(h[1]), z: kani::any() });
+// @harness name=dec_ad_01 props=C09 kind=complete tier=thorough
+dec_harness!(dec_ad_01, AD, ref_ad, PREF, h2(0, 1), |h| AD { a: u8c(h[0]), b: i8c(h[1]), c: kani::any() });
+// @harness name=dec_ap_01 props=C09 kind=complete tier=thorough
+dec_harness!(dec_ap_01, AP, ref_ap, PREF, h2(0, 1), |h| AP { x: u8c(h[0]), y: i8c(h[1]), z: kani::any() });
+// @harness name=dec_ad_10 props=C09 kind=complete tier=thorough
+dec_harness!(dec_ad_10, AD, ref_ad, PREF, h2(1, 0), |h| AD { a: u8c(h[0]), b: i8c(h[1]), c: kani::any() });
+// @harness name=dec_ap_10 props=C09 kind=complete tier=thorough
+dec_harness!(dec_ap_10, AP, ref_ap, PREF, h2(1, 0), |h| AP { x: u8c(h[0]), y: i8c(h[1]), z: kani::any() });
+// @harness name=dec_ad_11 props=C09 kind=complete tier=thorough
+dec_harness!(dec_ad_11, AD, ref_ad, PREF, h2(1, 1), |h| AD { a: u8c(h[0]), b: i8c(h[1]), c: kani::any() });
+// @harness name=dec_ap_11 props=C09 kind=complete
+dec_harness!(dec_ap_11, AP, ref_ap, PREF, h2(1, 1), |h| AP { x: u8c(h[0]), y: i8c(h[1]), z: kani::any() });
+// @harness name=dec_mp_0nn props=C09 kind=complete tier=thorough
+dec_harness!(dec_mp_0nn, MP, ref_mp, PREF, h3(0, AUTO, AUTO), |h| MP { a: u8c(h[0]), b: None, c: None });
+// @harness name=dec_mp_0n0 props=C09 kind=complete
+dec_harness!(dec_mp_0n0, MP, ref_mp, PREF, h3(0, AUTO, 0), |h| MP { a: u8c(h[0]), b: None, c: Some(i8c(h[2])) });
+// @harness name=dec_mp_0n1 props=C09 kind=complete tier=thorough
+dec_harness!(dec_mp_0n1, MP, ref_mp, PREF, h3(0, AUTO, 1), |h| MP { a: u8c(h[0]), b: None, c: Some(i8c(h[2])) });
+// @harness name=dec_mp_00n props=C09 kind=complete tier=thorough
+dec_harness!(dec_mp_00n, MP, ref_mp, PREF, h3(0, 0, AUTO), |h| MP { a: u8c(h[0]), b: Some(u16c(h[1])), c: None });
+// @harness name=dec_mp_000 props=C09 kind=complete tier=thorough
+dec_harness!(dec_mp_000, MP, ref_mp, PREF, h3(0, 0, 0), |h| MP { a: u8c(h[0]), b: Some(u16c(h[1])), c: Some(i8c(h[2])) });
+// @harness name=dec_mp_001 props=C09 kind=complete tier=thorough
+dec_harness!(dec_mp_001, MP, ref_mp, PREF, h3(0, 0, 1), |h| MP { a: u8c(h[0]), b: Some(u16c(h[1])), c: Some(i8c(h[2])) });
+// @harness name=dec_mp_01n props=C09 kind=complete tier=thorough
+dec_harness!(dec_mp_01n, MP, ref_mp, PREF, h3(0, 1, AUTO), |h| MP { a: u8c(h[0]), b: Some(u16c(h[1])), c: None });
+// @harness name=dec_mp_010 props=C09 kind=complete tier=thorough
+dec_harness!(dec_mp_010, MP, ref_mp, PREF, h3(0, 1, 0), |h| MP { a: u8c(h[0]), b: Some(u16c(h[1])), c: Some(i8c(h[2])) });
+// @harness name=dec_mp_011 props=C09 kind=complete tier=thorough
+dec_harness!(dec_mp_011, MP, ref_mp, PREF, h3(0, 1, 1), |h| MP { a: u8c(h[0]), b: Some(u16c(h[1])), c: Some(i8c(h[2])) });
+// @harness name=dec_mp_02n props=C09 kind=complete tier=thorough
+dec_harness!(dec_mp_02n, MP, ref_mp, PREF, h3(0, 2, AUTO), |h| MP { a: u8c(h[0]), b: Some(u16c(h[1])), c: None });
+// @harness name=dec_mp_020 props=C09 kind=complete tier=thorough
+dec_harness!(dec_mp_020, MP, ref_mp, PREF, h3(0, 2, 0), |h| MP { a: u8c(h[0]), b: Some(u16c(h[1])), c: Some(i8c(h[2])) });
+// @harness name=dec_mp_021 props=C09 kind=complete
+dec_harness!(dec_mp_021, MP, ref_mp, PREF, h3(0, 2, 1), |h| MP { a: u8c(h[0]), b: Some(u16c(h[1])), c: Some(i8c(h[2])) });
+// @harness name=dec_mp_1nn props=C09 kind=complete
+dec_harness!(dec_mp_1nn, MP, ref_mp, PREF, h3(1, AUTO, AUTO), |h| MP { a: u8c(h[0]), b: None, c: None });
+// @harness name=dec_mp_1n0 props=C09 kind=complete tier=thorough
+dec_harness!(dec_mp_1n0, MP, ref_mp, PREF, h3(1, AUTO, 0), |h| MP { a: u8c(h[0]), b: None, c: Some(i8c(h[2])) });
+// @harness name=dec_mp_1n1 props=C09 kind=complete tier=thorough
+dec_harness!(dec_mp_1n1, MP, ref_mp, PREF, h3(1, AUTO, 1), |h| MP { a: u8c(h[0]), b: None, c: Some(i8c(h[2])) });
+// @harness name=dec_mp_10n props=C09 kind=complete tier=thorough
+dec_harness!(dec_mp_10n, MP, ref_mp, PREF, h3(1, 0, AUTO), |h| MP { a: u8c(h[0]), b: Some(u16c(h[1])), c: None });
+// @harness name=dec_mp_100 props=C09 kind=complete tier=thorough
+dec_harness!(dec_mp_100, MP, ref_mp, PREF, h3(1, 0, 0), |h| MP { a: u8c(h[0]), b: Some(u16c(h[1])), c: Some(i8c(h[2])) });
+// @harness name=dec_mp_101 props=C09 kind=complete tier=thorough
+dec_harness!(dec_mp_101, MP, ref_mp, PREF, h3(1, 0, 1), |h| MP { a: u8c(h[0]), b: Some(u16c(h[1])), c: Some(i8c(h[2])) });
+// @harness name=dec_mp_11n props=C09 kind=complete
+dec_harness!(dec_mp_11n, MP, ref_mp, PREF, h3(1, 1, AUTO), |h| MP { a: u8c(h[0]), b: Some(u16c(h[1])), c: None });
+// @harness name=dec_mp_110 props=C09 kind=complete tier=thorough
+dec_harness!(dec_mp_110, MP, ref_mp, PREF, h3(1, 1, 0), |h| MP { a: u8c(h[0]), b: Some(u16c(h[1])), c: Some(i8c(h[2])) });
+// @harness name=dec_mp_111 props=C09 kind=complete tier=thorough
+dec_harness!(dec_mp_111, MP, ref_mp, PREF, h3(1, 1, 1), |h| MP { a: u8c(h[0]), b: Some(u16c(h[1])), c: Some(i8c(h[2])) });
+// @harness name=dec_mp_12n props=C09 kind=complete tier=thorough
+dec_harness!(dec_mp_12n, MP, ref_mp, PREF, h3(1, 2, AUTO), |h| MP { a: u8c(h[0]), b: Some(u16c(h[1])), c: None });
+// @harness name=dec_mp_120 props=C09 kind=complete tier=thorough
+dec_harness!(dec_mp_120, MP, ref_mp, PREF, h3(1, 2, 0), |h| MP { a: u8c(h[0]), b: Some(u16c(h[1])), c: Some(i8c(h[2])) });
+// @harness name=dec_mp_121 props=C09 kind=complete tier=thorough
+dec_harness!(dec_mp_121, MP, ref_mp, PREF, h3(1, 2, 1), |h| MP { a: u8c(h[0]), b: Some(u16c(h[1])), c: Some(i8c(h[2])) });
+// @harness name=dec_t_0n props=C09 kind=complete tier=thorough
+dec_harness!(dec_t_0n, T, ref_t, PREF, h2(0, AUTO), |h| T(u8c(h[0]), None, kani::any()));
+// @harness name=dec_t_00 props=C09 kind=complete tier=thorough
+dec_harness!(dec_t_00, T, ref_t, PREF, h2(0, 0), |h| T(u8c(h[0]), Some(u8c(h[1])), kani::any()));
+// @harness name=dec_t_01 props=C09 kind=complete tier=thorough
+dec_harness!(dec_t_01, T, ref_t, PREF, h2(0, 1), |h| T(u8c(h[0]), Some(u8c(h[1])), kani::any()));
+// @harness name=dec_t_1n props=C09 kind=complete
+dec_harness!(dec_t_1n, T, ref_t, PREF, h2(1, AUTO), |h| T(u8c(h[0]), None, kani::any()));
+// @harness name=dec_t_10 props=C09 kind=complete tier=thorough
+dec_harness!(dec_t_10, T, ref_t, PREF, h2(1, 0), |h| T(u8c(h[0]), Some(u8c(h[1])), kani::any()));
+// @harness name=dec_t_11 props=C09 kind=complete tier=thorough
+dec_harness!(dec_t_11, T, ref_t, PREF, h2(1, 1), |h| T(u8c(h[0]), Some(u8c(h[1])), kani::any()));
+// @harness name=dec_u props=C09 kind=complete
+dec_harness!(dec_u, U, ref_u, PREF, NOH, |h| U);
+// @harness name=dec_tg_0 props=C09 kind=complete tier=thorough
+dec_harness!(dec_tg_0, TG, ref_tg, PREF, h1(0), |h| TG { a: u8c(h[0]), b: kani::any() });
+// @harness name=dec_tg_1 props=C09 kind=complete
+dec_harness!(dec_tg_1, TG, ref_tg, PREF, h1(1), |h| TG { a: u8c(h[0]), b: kani::any() });
+// @harness name=dec_tgm_n props=C09 kind=complete
+dec_harness!(dec_tgm_n, TGM, ref_tgm, PREF, h1(AUTO), |h| TGM { a: None, b: kani::any() });
+// @harness name=dec_tgm_0 props=C09 kind=complete tier=thorough
+dec_harness!(dec_tgm_0, TGM, ref_tgm, PREF, h1(0), |h| TGM { a: Some(u8c(h[0])), b: kani::any() });
+// @harness name=dec_tgm_1 props=C09 kind=complete tier=thorough
+dec_harness!(dec_tgm_1, TGM, ref_tgm, PREF, h1(1), |h| TGM { a: Some(u8c(h[0])), b: kani::any() });
+// @harness name=dec_tr_0 props=C09 kind=complete tier=thorough
+dec_harness!(dec_tr_0, TR, ref_tr, PREF, h1(0), |h| TR(u16c(h[0])));
+// @harness name=dec_tr_1 props=C09 kind=complete tier=thorough
+dec_harness!(dec_tr_1, TR, ref_tr, PREF, h1(1), |h| TR(u16c(h[0])));
+// @harness name=dec_tr_2 props=C09 kind=complete
+dec_harness!(dec_tr_2, TR, ref_tr, PREF, h1(2), |h| TR(u16c(h[0])));
+// @harness name=dec_sk_0 props=C09 kind=complete note="the skipped field takes its default"
+dec_harness!(dec_sk_0, skip0, SK => SK, 24, ref_sk, PREF, h1(0), |h| SK { a: u8c(h[0]), s: kani::any(), b: kani::any() }, |v| SK { s: 0, ..v });
+// @harness name=dec_sk_1 props=C09 kind=complete tier=thorough note="the skipped field takes its default"
+dec_harness!(dec_sk_1, skip0, SK => SK, 24, ref_sk, PREF, h1(1), |h| SK { a: u8c(h[0]), s: kani::any(), b: kani::any() }, |v| SK { s: 0, ..v });
+// @harness name=dec_e_v0 props=C09 kind=complete
+dec_harness!(dec_e_v0, skip1, E => E, 24, ref_e, PREF, NOH, |h| E::V0, |v| v);
+// @harness name=dec_e_v1_0n props=C09 kind=complete
+dec_harness!(dec_e_v1_0n, E, ref_e, PREF, h2(0, AUTO), |h| E::V1(u8c(h[0]), None));
+// @harness name=dec_e_v1_00 props=C09 kind=complete tier=thorough
+dec_harness!(dec_e_v1_00, E, ref_e, PREF, h2(0, 0), |h| E::V1(u8c(h[0]), Some(u8c(h[1]))));
+// @harness name=dec_e_v1_01 props=C09 kind=complete tier=thorough
+dec_harness!(dec_e_v1_01, E, ref_e, PREF, h2(0, 1), |h| E::V1(u8c(h[0]), Some(u8c(h[1]))));
+// @harness name=dec_e_v1_1n props=C09 kind=complete tier=thorough
+dec_harness!(dec_e_v1_1n, E, ref_e, PREF, h2(1, AUTO), |h| E::V1(u8c(h[0]), None));
+// @harness name=dec_e_v1_10 props=C09 kind=complete
+dec_harness!(dec_e_v1_10, E, ref_e, PREF, h2(1, 0), |h| E::V1(u8c(h[0]), Some(u8c(h[1]))));
+// @harness name=dec_e_v1_11 props=C09 kind=complete tier=thorough
+dec_harness!(dec_e_v1_11, E, ref_e, PREF, h2(1, 1), |h| E::V1(u8c(h[0]), Some(u8c(h[1]))));
+// @harness name=dec_e_v3_n props=C09 kind=complete tier=thorough
+dec_harness!(dec_e_v3_n, E, ref_e, PREF, h1(AUTO), |h| E::V3 { a: kani::any(), b: None });
+// @harness name=dec_e_v3_0 props=C09 kind=complete tier=thorough
+dec_harness!(dec_e_v3_0, E, ref_e, PREF, h1(0), |h| E::V3 { a: kani::any(), b: Some(u16c(h[0])) });
+// @harness name=dec_e_v3_1 props=C09 kind=complete tier=thorough
+dec_harness!(dec_e_v3_1, E, ref_e, PREF, h1(1), |h| E::V3 { a: kani::any(), b: Some(u16c(h[0])) });
+// @harness name=dec_e_v3_2 props=C09 kind=complete
+dec_harness!(dec_e_v3_2, E, ref_e, PREF, h1(2), |h| E::V3 { a: kani::any(), b: Some(u16c(h[0])) });
+// @harness name=dec_e_v4 props=C09 kind=complete
+dec_harness!(dec_e_v4, E, ref_e, PREF, NOH, |h| E::V4(kani::any()));
+// @harness name=dec_em_v0 props=C09 kind=complete tier=thorough
+dec_harness!(dec_em_v0, skip1, EM => EM, 24, ref_em, PREF, NOH, |h| EM::V0, |v| v);
+// @harness name=dec_em_v1_0 props=C09 kind=complete tier=thorough
+dec_harness!(dec_em_v1_0, EM, ref_em, PREF, h1(0), |h| EM::V1 { a: u8c(h[0]), b: kani::any() });
+// @harness name=dec_em_v2_0 props=C09 kind=complete
+dec_harness!(dec_em_v2_0, EM, ref_em, PREF, h1(0), |h| EM::V2(u8c(h[0]), kani::any()));
+// @harness name=dec_em_v1_1 props=C09 kind=complete
+dec_harness!(dec_em_v1_1, EM, ref_em, PREF, h1(1), |h| EM::V1 { a: u8c(h[0]), b: kani::any() });
+// @harness name=dec_em_v2_1 props=C09 kind=complete tier=thorough
+dec_harness!(dec_em_v2_1, EM, ref_em, PREF, h1(1), |h| EM::V2(u8c(h[0]), kani::any()));
+// @harness name=dec_eo_0n props=C09 kind=complete
+dec_harness!(dec_eo_0n, EO, ref_eo, PREF, h2(0, AUTO), |h| EO::V0 { a: u8c(h[0]), b: None });
+// @harness name=dec_eo_00 props=C09 kind=complete tier=thorough
+dec_harness!(dec_eo_00, EO, ref_eo, PREF, h2(0, 0), |h| EO::V0 { a: u8c(h[0]), b: Some(u8c(h[1])) });
+// @harness name=dec_eo_01 props=C09 kind=complete tier=thorough
+dec_harness!(dec_eo_01, EO, ref_eo, PREF, h2(0, 1), |h| EO::V0 { a: u8c(h[0]), b: Some(u8c(h[1])) });
+// @harness name=dec_eo_1n props=C09 kind=complete tier=thorough
+dec_harness!(dec_eo_1n, EO, ref_eo, PREF, h2(1, AUTO), |h| EO::V0 { a: u8c(h[0]), b: None });
+// @harness name=dec_eo_10 props=C09 kind=complete tier=thorough
+dec_harness!(dec_eo_10, EO, ref_eo, PREF, h2(1, 0), |h| EO::V0 { a: u8c(h[0]), b: Some(u8c(h[1])) });
+// @harness name=dec_eo_11 props=C09 kind=complete tier=thorough
+dec_harness!(dec_eo_11, EO, ref_eo, PREF, h2(1, 1), |h| EO::V0 { a: u8c(h[0]), b: Some(u8c(h[1])) });
+// @harness name=dec_io_i0 props=C09 kind=complete tier=thorough
+dec_harness!(dec_io_i0, IO, ref_io, PREF, NOH, |h| IO::I0);
+// @harness name=dec_io_i1 props=C09 kind=complete tier=thorough
+dec_harness!(dec_io_i1, IO, ref_io, PREF, NOH, |h| IO::I1);
+// @harness name=dec_io_i30 props=C09 kind=complete
+dec_harness!(dec_io_i30, IO, ref_io, PREF, NOH, |h| IO::I30);
+// @harness name=dec_by_0 props=C09 kind=complete tier=thorough
+dec_harness!(dec_by_0, BY, ref_by, PREF, h1(0), |h| BY { a: u8c(h[0]), b: kani::any() });
+// @harness name=dec_by_1 props=C09 kind=complete
+dec_harness!(dec_by_1, BY, ref_by, PREF, h1(1), |h| BY { a: u8c(h[0]), b: kani::any() });
+// @harness name=dec_to_n props=C09 kind=complete
+dec_harness!(dec_to_n, TO, ref_to, PREF, h1(AUTO), |h| TO { a: None, b: kani::any() });
+// @harness name=dec_to_0 props=C09 kind=complete tier=thorough
+dec_harness!(dec_to_0, TO, ref_to, PREF, h1(0), |h| TO { a: Some(u8c(h[0])), b: kani::any() });
+// @harness name=dec_to_1 props=C09 kind=complete tier=thorough
+dec_harness!(dec_to_1, TO, ref_to, PREF, h1(1), |h| TO { a: Some(u8c(h[0])), b: kani::any() });
